@@ -548,6 +548,10 @@ func (d *inputDocGen) doc(t *ITy, path []any) any {
 			hi = int(*t.Max)
 		}
 		n := lo + r.intn(hi-lo+1)
+		if lo == 0 && r.chance(1, 4) {
+			n = 0 // the empty list: a value, not an absence
+			d.spelling["list:empty"] = true
+		}
 		out := make([]any, n)
 		for i := range out {
 			out[i] = d.doc(t.Item, inputPathPlus(path, i))
@@ -907,10 +911,29 @@ func inputWorkflowYAML(root *ITy, steps []inputStep) string {
 		fmt.Fprintf(&b, "    input: {%s}\n", strings.Join(parts, ", "))
 	}
 	b.WriteString("outputs:\n  success:\n    input: !expr $.input\n")
+	if lists := inputListRefs(root); len(lists) > 0 {
+		// every list-typed field that is always present, referred to directly inside a map: an EMPTY list is a value too
+		parts := []string{}
+		for _, k := range sortedKeys(lists) {
+			parts = append(parts, k+": !expr "+yq("$.input."+strings.Join(lists[k], ".")))
+		}
+		fmt.Fprintf(&b, "    lists: {%s}\n", strings.Join(parts, ", "))
+	}
 	for _, s := range steps {
 		fmt.Fprintf(&b, "    %s: !expr $.steps.%s.outputs.success\n", s.ID, s.ID)
 	}
 	return b.String()
+}
+
+// inputListRefs: l0, l1, ... -> path of a list-typed field that is present in every normalised input
+func inputListRefs(root *ITy) map[string][]string {
+	av := map[string][][]string{}
+	inputGuaranteed(root, nil, av)
+	out := map[string][]string{}
+	for i, p := range av["l"] {
+		out[fmt.Sprintf("l%d", i)] = p
+	}
+	return out
 }
 
 // inputGuaranteed collects the paths of fields that are present in every normalised input (required or defaulted, below
@@ -1150,7 +1173,7 @@ func runInputCase(r *rng, caseID string) map[string]any {
 	}
 	out := map[string]any{"kind": "input", "id": caseID, "yaml": text, "ty": root.json(), "doc": encVal(passed),
 		"via_yaml": viaYAML, "expect_valid": expectValid, "violation_kind": kind, "violation_path": vpath,
-		"spelling": sortedKeys(d.spelling), "shape": sortedKeys(shapes), "steps": stepsJ}
+		"spelling": sortedKeys(d.spelling), "shape": sortedKeys(shapes), "steps": stepsJ, "list_refs": inputListRefs(root)}
 	if kb, err := json.Marshal(out["doc"]); err == nil {
 		out["key"] = string(kb) // distinct = workflow text + document
 	}
